@@ -66,7 +66,7 @@ def svalOfJson (j : Json) : Except String SVal := do
   if x.typed then pure x else throw s!"ill-typed serde literal in a {x.kind} value"
 
 /-- every value the driver hands to the model satisfies the typing invariant of `SVal` (hence `SValOK`, the row
-hypothesis of `C03_wf`: `Lemmas.C03.typed_SValOK`) -/
+hypothesis of `C03_wfS`: `Lemmas.C03.typed_SValOK`) -/
 theorem svalOfJson_typed (j : Json) (x : SVal) (h : svalOfJson j = .ok x) : x.typed = true := by
   unfold svalOfJson at h
   cases hr : svalOfJsonRaw j with
